@@ -801,6 +801,10 @@ func (x *FnExec) instr(fr *frame, n *node, in ssa.Instruction) error {
 			okT = and(not(eq(v.S, "inil")), eq("(itag "+v.S+")", fmt.Sprint(x.q.typeID(in.AssertedType))))
 			res = Val{S: ite(okT, fmt.Sprintf("(%s %s)", unbox, v.S), x.q.zero(in.AssertedType)), T: in.AssertedType}
 		}
+		// whatever an interface value carries existed before this point
+		res.S = x.q.define(fr.tag+"_"+in.Name()+"_v", x.q.sortOf(in.AssertedType), res.S)
+		x.assumeValid(reach, res.S, in.AssertedType)
+		x.assumeAllocT(st, reach, res.S, in.AssertedType, 1)
 		if in.CommaOk {
 			env[in] = Val{T: in.Type(), Tuple: []Val{res, {S: okT, T: types.Typ[types.Bool]}}}
 		} else {
